@@ -148,6 +148,38 @@ PunctCases == {CaseOf("C03/punct/" \o ToString(i), <<Def1("v", StrL(PunctVals[i]
                                                    PrintS(<<Var("n"), LenE(Var("s")), LenE(Var("d"))>>), RangeS("k", "e", Var("s"), <<PrintS(<<Var("k"), StrL("["), Var("e"), StrL("]"), LenE(Var("e"))>>)>>),
                                                    PrintS(<<StrL("["), IndexE(Var("d"), N(0)), StrL("]"), CmpE("==", IndexE(Var("d"), N(3)), Var("v")), CmpE("==", IndexE(Var("s"), N(1)), StrL(""))>>)>>)
                : i \in 1..Len(PunctVals)}
-All == PunctCases \cup Range2 \cup SubCases \cup IdxCases \cup StrOps \cup GrowCases \cup Hist2 \cup Hist3 \cup HistStore \cup CopyCases \cup MiscCases
+\* ---- declaration forms (round 14: `var a, b []int` gave both names ONE array): every way of declaring two or three slices - separate var statements, ONE var with
+\* several names and no value, one var with several values, a short definition with several values, a typed var with values - followed by every short history of
+\* stores through the first name; the other names must stay what they were.  The same for scalars (their defaults are values, not storage).
+DeclForms == {"sepvar", "multivar", "multivar3", "multivarvals", "shortvals", "typedvals", "aliased"}
+DeclOps == {"store0", "grow", "append2", "copyinto", "none"}
+DeclStmts(f, ty) ==
+  LET E == SliceLit(ty, <<>>) T == "[]" \o ty IN
+  CASE f = "sepvar" -> <<VarDef(<<"a">>, T, <<>>), VarDef(<<"b">>, T, <<>>), VarDef(<<"c">>, T, <<>>)>>
+    [] f = "multivar" -> <<VarDef(<<"a", "b">>, T, <<>>), VarDef(<<"c">>, T, <<>>)>>
+    [] f = "multivar3" -> <<VarDef(<<"a", "b", "c">>, T, <<>>)>>
+    [] f = "multivarvals" -> <<VarDef(<<"a", "b", "c">>, "", <<E, E, E>>)>>
+    [] f = "shortvals" -> <<Def(<<"a", "b", "c">>, <<E, E, E>>)>>
+    [] f = "typedvals" -> <<VarDef(<<"a", "b">>, T, <<E, E>>), VarDef(<<"c">>, T, <<E>>)>>
+    [] f = "aliased" -> <<VarDef(<<"a", "c">>, T, <<>>), Def1("b", Var("a"))>>          \* b IS a here: the control that stores through a are seen through b
+DeclOpStmts(o, ty) ==
+  CASE o = "store0" -> <<SetIdx("a", N(0), NewOf(ty))>>
+    [] o = "grow" -> <<SetIdx("a", N(2), NewOf(ty))>>
+    [] o = "append2" -> <<SetIdx("a", LenE(Var("a")), NewOf(ty)), SetIdx("a", LenE(Var("a")), ElemOf(ty, 1)), SetIdx("c", N(0), ElemOf(ty, 2))>>
+    [] o = "copyinto" -> <<Def1("src", SliceLit(ty, <<ElemOf(ty, 1), ElemOf(ty, 2)>>)), Def1("n", CopyE("a", Var("src"))), Print1(Var("n"))>>
+    [] o = "none" -> <<>>
+DeclShow == <<PrintS(<<LenE(Var("a")), LenE(Var("b")), LenE(Var("c"))>>), RangeS("i", "v", Var("a"), <<PrintS(<<StrL("a"), Var("i"), Var("v")>>)>>),
+              RangeS("i", "v", Var("b"), <<PrintS(<<StrL("b"), Var("i"), Var("v")>>)>>), RangeS("i", "v", Var("c"), <<PrintS(<<StrL("c"), Var("i"), Var("v")>>)>>)>>
+DeclCases == {CaseOf("C03/decl/" \o f \o "/" \o ty \o "/" \o o \o "/" \o w,
+                     IF w = "top" THEN DeclStmts(f, ty) \o DeclOpStmts(o, ty) \o DeclShow
+                     ELSE <<Func("run", <<>>, <<>>, DeclStmts(f, ty) \o DeclOpStmts(o, ty) \o DeclShow), ExprS(CallE("run", <<>>)), ExprS(CallE("run", <<>>))>>)
+              : f \in DeclForms, ty \in {"int", "string", "bool"}, o \in DeclOps, w \in {"top", "func"}}
+ScalarDecl == {CaseOf("C03/decl/scalar/" \o ty \o "/" \o w,
+                      LET body == <<VarDef(<<"p", "q">>, ty, <<>>), VarDef(<<"r">>, ty, <<>>), PrintS(<<StrL("["), Var("p"), Var("q"), Var("r"), StrL("]")>>),
+                                    Asg1("p", CASE ty = "int" -> N(5) [] ty = "string" -> StrL("five") [] ty = "bool" -> BoolL(TRUE)),
+                                    PrintS(<<StrL("["), Var("p"), Var("q"), Var("r"), StrL("]")>>)>>
+                      IN IF w = "top" THEN body ELSE <<Func("run", <<>>, <<>>, body), ExprS(CallE("run", <<>>)), ExprS(CallE("run", <<>>))>>)
+               : ty \in {"int", "string", "bool"}, w \in {"top", "func"}}
+All == DeclCases \cup ScalarDecl \cup PunctCases \cup Range2 \cup SubCases \cup IdxCases \cup StrOps \cup GrowCases \cup Hist2 \cup Hist3 \cup HistStore \cup CopyCases \cup MiscCases
 ASSUME ndJsonSerialize("fam.ndjson", SetToSeq(All))
 =============================================================================
